@@ -198,7 +198,7 @@ def floatops(t):
     head, body = t[:body_start], t[body_start:]
     body, k = re.subn(r'\b1(?:\.0)?\s*/\s*((?:\w+->)?\w+)\b', r'vf_fdiv(1.0, \1)', body)
     n += k
-    body, k = re.subn(r'(?<![\w.)\]>])((?:\w+->)?\w+)\s*\*\s*((?:\w+->)?\w+)\b(?!\s*[(\[.]|->)', r'vf_fmul(\1, \2)', body)
+    body, k = re.subn(r'(?<![\w.)\]>])((?:\w+(?:->|\.))*\w+)\s*\*\s*((?:\w+(?:->|\.))*\w+)\b(?!\s*[(\[.]|->)', r'vf_fmul(\1, \2)', body)
     n += k
     body, k = re.subn(r'\bpow\s*\(', 'vf_pow(', body)
     n += k
